@@ -15,7 +15,7 @@ fn doc_line(rng: &mut Rng, numbers: &[u64]) -> String {
         10 => format!("{} {}", n, rng.pick(&["PRINT \"unterminated", "X = 1.2.3", "é", "PRINT 1 % 2", "A$ = \"日本", "PRINT 1 + 😀"])),
         11 => format!("{} REM {}", n, rng.pick(&["café", "日本語", "😀 emoji", "plain", "\u{2028}sep"])),
         12 => format!("{} PRINT \"{}\" + 1", n, rng.pick(&["é", "😀", "ab", "日本"])),
-        13 => format!(" {} {}", n, gen::simple_statement(rng)),
+        13 => format!("{}{} {}", rng.pick(&[" ", "   ", "\t", "\u{a0}", "\u{3000}", " \u{a0}", "\u{2003}\u{a0} "]), n, gen::simple_statement(rng)),
         14 => format!("{} IF {} THEN {} ELSE {}", n, gen::num_expr(rng, 1), rng.pick(&["100", "PRINT 1", "GOTO 10", "X = \"s\""]), rng.pick(&["20", "PRINT A$", "Y = 1"])),
         _ => format!("{} {}", n, rng.pick(&["GOTO 99", "GOSUB 10", "NEXT I", "FOR I = 1 TO 3", "FOR A$ = 1 TO 2", "DEF FNA(X) = X + 1", "DEF FNB(X) = \"s\"", "Y = FNA(2)", "PRINT FNA(\"x\")", "INPUT Q", "READ R, S$", "DATA 1, two", "DIM D(5)", "STOP", "END", "RETURN", "LET", "LET 5", "PRINT (1", "PRINT 1 +", "ELSE PRINT 1", "IF 1 THEN", "NEXT", "X = = 1",
             "DEF", "DEF 5", "DEF FNA(", "DEF FNA(5) = 1", "DEF FNA(X", "DEF FNA(X Y) = 1", "DEF FNA(X,) = 1", "DEF FNA() = 1", "DEF FNA(X) 1", "GOSUB", "GOTO X", "FOR = 1 TO 2", "FOR I = \"a\" TO 2", "DIM", "DIM A()", "READ ,", "INPUT", "INPUT 5", "A(1", "NEXT I, J"])),
@@ -24,7 +24,7 @@ fn doc_line(rng: &mut Rng, numbers: &[u64]) -> String {
 
 pub fn document(rng: &mut Rng) -> String {
     let k = rng.range(0, 9);
-    let numbers: Vec<u64> = vec![10, 20, 30, 40, 50, 10, 20, 7, 65535, 18446744073709551615];
+    let numbers: Vec<u64> = vec![10, 20, 30, 40, 50, 10, 20, 7, 65535, 63999, 64000, 100000, 18446744073709551615];
     let mut lines = vec![];
     if rng.chance(1, 3) {
         let p = program(rng, &GenOpts::default());
@@ -45,8 +45,17 @@ pub fn document(rng: &mut Rng) -> String {
             _ => format!("60 X = {}1{}", "ABS(".repeat(n), ")".repeat(n)),
         });
     }
+    if rng.chance(1, 8) {
+        // a line number that does not fit u64 (the line is not a numbered line at all), anywhere incl. last
+        let at = rng.range(0, lines.len());
+        lines.insert(at, format!("{} {}", rng.pick(&["18446744073709551616", "99999999999999999999", "340282366920938463463374607431768211456"]), rng.pick(&["PRINT 1", "", "X = \"s\" + 1", "PRINT \"é"])));
+    }
     let sep = rng.pick(&["\n", "\n", "\n", "\r\n", "\r"]);
     let mut doc = lines.join(sep);
+    if rng.chance(1, 10) {
+        // a byte-order mark in front of the first line
+        doc = format!("{}{}", '\u{feff}', doc);
+    }
     if rng.chance(1, 3) {
         doc.push_str(sep);
     }
@@ -146,6 +155,35 @@ pub fn c20_cases(rng: &mut Rng, tier: &str) -> (Vec<Case>, bool) {
         }
         cases.push(Case { ops, checks, tag: format!("{}-notifications", k), nontrivial: k > 1, show: format!("{:?}", show) });
     }
+    // several documents open side by side (URIs that differ in case, escaping, directory): an update of one must not
+    // change what the server answers for another
+    for _ in 0..(n / 10).max(6) {
+        let mut ops = vec!["new 0 0".to_string()];
+        let mut checks = vec![];
+        let mut texts: Vec<Option<String>> = vec![None; 5];
+        let mut show = vec![];
+        for _ in 0..rng.range(3, 10) {
+            let k = rng.below(5);
+            if texts[k].is_some() && rng.chance(1, 3) {
+                // ask again for a document that was not just updated
+                let t = texts[k].clone().unwrap();
+                ops.push(if t.is_empty() { format!("lspq {}", k) } else { format!("lspq {} {}", k, hexs(&t)) });
+            } else {
+                let d = if rng.chance(1, 3) { document(rng) } else { format!("{} PRINT \"{}\" + {}", (k + 1) * 10, rng.pick(&["é", "doc", "😀"]), k) };
+                ops.push(if d.is_empty() { format!("lspu {}", k) } else { format!("lspu {} {}", k, hexs(&d)) });
+                checks.push(format!("lsp-wellformed {}", ops.len() - 1));
+                show.push(format!("{}:{}", k, d.chars().take(30).collect::<String>()));
+                texts[k] = Some(d);
+            }
+        }
+        // finally every open document once more
+        for k in 0..5 {
+            if let Some(t) = &texts[k] {
+                ops.push(if t.is_empty() { format!("lspq {}", k) } else { format!("lspq {} {}", k, hexs(t)) });
+            }
+        }
+        cases.push(Case { ops, checks, tag: "several-documents".into(), nontrivial: true, show: format!("{:?}", show) });
+    }
     (cases, false)
 }
 
@@ -216,12 +254,41 @@ pub fn c06_cases(rng: &mut Rng, tier: &str) -> (Vec<Case>, bool) {
     }
     // user-function calls of every arity against definitions of every arity: a DEF line and one call. Only the forward
     // direction applies (accepted => no syntax / type failure): the property's converse excludes definitions and calls
-    let defs = ["DEF FNA(X) = X + 1", "DEF FNA(X, Y) = X + Y", "DEF FNA(X, Y, Z) = X + Y * Z", "DEF FNA(A$) = 1", "DEF FNA(X, B$) = X", "DEF FNA$(X) = \"s\"", "DEF FNA(X) = \"s\""];
+    // jump targets with a fractional part: both walkers must pick the same line
+    for jump in ["GOTO 20.5", "GOTO 20.9", "GOSUB 20.5", "IF 1 THEN 20.7", "IF 0 THEN 99 ELSE 20.5", "GOTO 19.5", "GOTO 20.49", "ON"] {
+        for lines in [&["20 PRINT \"OK\" : END"][..], &["20 PRINT \"A\" : END", "21 PRINT \"B\" : END"][..], &["19 END", "21 END"][..]] {
+            if jump == "ON" {
+                continue;
+            }
+            let mut text = format!("10 {}", jump);
+            for l in lines.iter() {
+                text.push('\n');
+                text.push_str(l);
+            }
+            let mut w = Walk::new(false, false);
+            w.op(&analyze_op(&text));
+            let ai = w.last();
+            let a0 = w.ops.len();
+            for l in text.split('\n') {
+                w.start(l);
+            }
+            w.start("RUN");
+            let mut nr = 0;
+            w.drive(&[], &mut nr, 30, false);
+            w.state();
+            let b = w.last();
+            cases.push(Case { ops: w.ops, checks: vec![format!("agree-sound {} {}-{}", ai, a0, b)], tag: "fractional-jump".into(), nontrivial: true, show: text.replace('\n', " | ") });
+        }
+    }
+    let defs = ["DEF FNA(X) = X + 1", "DEF FNA(X, Y) = X + Y", "DEF FNA(X, Y, Z) = X + Y * Z", "DEF FNA(A$) = 1", "DEF FNA(X, B$) = X", "DEF FNA$(X) = \"s\"", "DEF FNA(X) = \"s\"",
+        // a definition named like a built-in: both walkers must resolve the call the same way
+        "DEF INT(A$) = 1", "DEF ABS(X, Y) = X - Y", "DEF RND(X$) = 1", "DEF ABS(X) = X + 1"];
     let args = ["", "1", "1,", "1, 2", "1, 2,", "1, 2, 3", "1, 2, 3, 4", "\"s\"", "1, \"s\"", "\"s\", 1", ",1", "1 2", "(1), (2)", "FNA(1), 2"];
     for d in defs {
         for a in args {
             for call in ["PRINT FNA({})", "Y = FNA({}) * 2", "PRINT 1 + FNA({})"] {
-                let text = format!("10 {}\n20 {}", d, call.replace("{}", a)).replace("FNA(", if d.contains("FNA$") { "FNA$(" } else { "FNA(" });
+                let fname = d[4..d.find('(').unwrap()].to_string();
+                let text = format!("10 {}\n20 {}", d, call.replace("{}", a).replace("FNA", &fname));
                 let mut w = Walk::new(false, false);
                 w.op(&analyze_op(&text));
                 let ai = w.last();
